@@ -196,6 +196,26 @@ let spec_checked (f : bf) (rho : valuation) =
   if missing = [] then "ok:" ^ (if f.fn (fun x -> match List.assoc_opt x rho with Some b -> b | None -> false) then "1" else "0")
   else "missing:" ^ names missing
 
+(* for expression registers: is the declared-input set of the specification exact (not just an upper bound)?
+   justified by the proved equalities literals(e_restrict ..) = .., literals(e_elim ..) = .., literals(e_and/e_or ..) = union,
+   literals(to_nnf e) = literals e; inclusion only is proved for xor/imply/iff, cnf/dnf, substitution and conversions *)
+let exact : bool list ref = ref []
+let exact_of (i : instr) : bool =
+  let ex r = (match List.nth_opt !exact (int_of_nat r) with Some b -> b | None -> false) in
+  match i with
+  | IExpr _ | IParse _ | IMkConst _ | IMkLiteral _ -> true
+  | IOp1 (ONot, r) | IOp1 (ONnf, r) -> ex r
+  | IOp1 (_, _) -> false
+  | IOp2 (OAnd, a, b) | IOp2 (OOr, a, b) -> ex a && ex b
+  | IOp2 (_, _, _) -> false
+  | IConv (_, _) -> false
+  | IRestrict (r, _) | IQuant (_, r, _) -> ex r
+  | ISubst (_, _) -> false
+  | INary (_, rs) -> List.for_all ex rs
+  | IBinary (_, a, b) -> ex a && ex b
+  | INegate r -> ex r
+  | ICsvIn (_, _) -> true
+
 let query (p : pool) toks : string =
   let get i = reg p (reg_of i) in
   match toks with
@@ -207,7 +227,7 @@ let query (p : pool) toks : string =
            Printf.sprintf "kind=%s struct=%s inputs=%s tv=%s s.rel=%s s.inputs=%s s.tv=%s"
              (kind_char o) (if e.e_opaque then "*" else show_struct o)
              (names (obj_inputs o)) (match o with OT { t_outputs = []; _ } -> "-" | _ -> bits (obj_tv o))
-             (match o with OE _ -> "sub" | _ -> "eq")
+             (match o with OE _ -> (match List.nth_opt !exact (int_of_string i) with Some true -> "eq" | _ -> "sub") | _ -> "eq")
              (names e.e_spec.ins) (match o with OT { t_outputs = []; _ } -> "-" | _ -> bits (bf_tv e.e_spec)))
   | ["enum"; i] ->
       (match get i with
@@ -217,6 +237,18 @@ let query (p : pool) toks : string =
            let f = e.e_spec in
            let is_b = (match o with OB _ -> true | _ -> false) in
            let sup = obj_support o in
+           let rel_str r = if r = [] then "-" else String.concat "," (List.map (fun (q, b) -> pt q ^ ":" ^ (if b then "1" else "0")) r) in
+           let extra = (match o with
+             | OB _ -> ""
+             | _ ->
+                 let ins = obj_inputs o in
+                 let ps = power_set ins in
+                 let pset = " pset=" ^ pts (List.map (fun rho -> List.map (fun x -> match List.assoc_opt x rho with Some b -> b | None -> false) ins) ps) in
+                 (match o with
+                  | OT t -> pset ^ Printf.sprintf " rows=%s rwo=%s nrows=%d nvars=%d" (pts (obj_domain o)) (rel_str (obj_relation o))
+                                     (1 lsl (List.length t.t_inputs)) (List.length t.t_inputs)
+                  | _ -> pset)) in
+           (fun s -> s ^ extra) @@
            Printf.sprintf "kind=%s inputs=%s ess=%s deg=%d essdeg=%d dom=%s img=%s rel=%s sup=%s w=%d sat=%s nodes=%s s.rel=%s s.inputs=%s s.ess=%s s.sup=%s s.w=%d"
              (kind_char o) (names (obj_inputs o))
              (match obj_essential o with Ok l -> names l | _ -> "panic")
@@ -315,6 +347,9 @@ let query (p : pool) toks : string =
       (match get i with
        | Some { e_obj = OE x; e_opaque = o; _ } ->
            if o then "nnf=* cnf=* dnf=* lit=* const=* not=* and=* or=*" else
+           (* the specification of the predicates is the reference shapes, to which the model's predicates are
+              proved equal (C11_is_nnf_reference, C11_is_cnf_reference, C11_is_dnf_reference) *)
+           (fun s_ -> s_ ^ Printf.sprintf " s.nnf=%d s.cnf=%d s.dnf=%d" (Bool.to_int (is_nnf x)) (Bool.to_int (is_cnf x)) (Bool.to_int (is_dnf x))) @@
            Printf.sprintf "nnf=%d cnf=%d dnf=%d lit=%d const=%d not=%d and=%d or=%d" (Bool.to_int (is_nnf x)) (Bool.to_int (is_cnf x)) (Bool.to_int (is_dnf x))
              (Bool.to_int (match x with Lit _ -> true | Not (Lit _) -> true | _ -> false))
              (Bool.to_int (match x with Const _ -> true | _ -> false)) (Bool.to_int (match x with Not _ -> true | _ -> false))
@@ -361,7 +396,7 @@ let () =
        let toks = List.filter (fun s -> s <> "") (String.split_on_char ' ' (String.trim line)) in
        (match toks with
         | [] -> ()
-        | "case" :: id :: _ -> case := id; lineno := 0; pool := []
+        | "case" :: id :: _ -> case := id; lineno := 0; pool := []; exact := []
         | ["end"] -> ()
         | "r" :: rest ->
             incr lineno;
@@ -369,11 +404,12 @@ let () =
               (try
                  let i = parse_instr rest in
                  let res = exec !pool i in
+                 exact := !exact @ [ exact_of i ];
                  pool := !pool @ [ (match res with Ok e -> Some e | _ -> None) ];
                  (match i, res with
                   | ICsvIn _, Err c -> "err variant=" ^ csv_err_name (int_of_nat c)
                   | _ -> status_of res)
-               with Bad m -> pool := !pool @ [None]; "bad:" ^ m) in
+               with Bad m -> pool := !pool @ [None]; exact := !exact @ [false]; "bad:" ^ m) in
             Printf.printf "%s %d %s\n" !case !lineno out
         | "q" :: rest ->
             incr lineno;
